@@ -227,7 +227,8 @@ pub fn oracle<E: Engine>(_ctx: &RunCtx, spec: &HostileSpec, log: &mut CaseLog) -
         // a commitment-generator set assembled by hand (its fields are public) whose number of masking bases disagrees with the
         // degree it declares: the parameter constructor is the validating step it passes through
         let mut params = t.params.clone();
-        let gens_hack = (hm.bulk >> 8) % 9;
+        // (one member in ten: a batch with such a member is refused early, which would otherwise crowd out the deeper paths)
+        let gens_hack = (hm.bulk >> 8) % 40;
         if gens_hack < 4 {
             let mut pc = E::pedersen(ext);
             match gens_hack {
